@@ -368,7 +368,7 @@ func genC03Compiled(t *rapid.T) (*c03Compiled, []c03Probe) {
 	}
 	np := rapid.IntRange(8, 30).Draw(t, "nprobes")
 	var probes []c03Probe
-	qnames := append([]string{"zz.a.com", "a.b.c.b.a.com", "", "org", "b.com"}, names...)
+	qnames := append([]string{"zz.a.com", "a.b.c.b.a.com", "", "org", "b.com", "l1.l2.l3.l4.l5.l6.l7.l8.l9.l10.b.a.com", "0.1.2.3.4.5.6.7.8.9.a.b.c.d.e.f.0.1.2.3.4.5.6.7.8.9.a.b.c.d.x.org"}, names...)
 	for i := 0; i < np; i++ {
 		ecs := rapid.Bool().Draw(t, "ecs")
 		qn := rapid.SampledFrom(qnames).Draw(t, "qname")
